@@ -517,6 +517,45 @@ func genBHStruct(g *vlib.G) {
 		}
 		sets = append(sets, set{"grid20x20-2d", 2, big}, set{"grid20x20-3d", 3, big})
 	}
+	// The exported force laws: (m1 m2)/|v|^2 in the direction of v, zero for coincident particles.
+	g.Case("Gravity2 and Gravity3 law", func(t *vlib.T) {
+		var n int64
+		for i := 0; i < 125; i++ {
+			v := vec3{float64(i/25) - 2, float64(i/5%5) - 2, float64(i%5) - 2}
+			for _, m := range [][2]float64{{1, 1}, {2, 3}, {0.5, 4}} {
+				d2 := v[0]*v[0] + v[1]*v[1] + v[2]*v[2]
+				var want vec3
+				if d2 != 0 {
+					for c := range want {
+						want[c] = m[0] * m[1] / d2 * (v[c] / math.Sqrt(d2))
+					}
+				}
+				g3 := barneshut.Gravity3(nil, nil, m[0], m[1], r3.Vec{X: v[0], Y: v[1], Z: v[2]})
+				got := vec3{g3.X, g3.Y, g3.Z}
+				for c := range want {
+					if math.Abs(got[c]-want[c]) > 1e-14*math.Abs(want[c]) || math.IsNaN(got[c]) {
+						t.Failf("Gravity3(m1=%v,m2=%v,v=%v)=%v want %v", m[0], m[1], v, got, want)
+						return
+					}
+				}
+				n++
+				if v[2] == 0 {
+					g2 := barneshut.Gravity2(nil, nil, m[0], m[1], r2.Vec{X: v[0], Y: v[1]})
+					got := vec3{g2.X, g2.Y, 0}
+					for c := range want {
+						if math.Abs(got[c]-want[c]) > 1e-14*math.Abs(want[c]) || math.IsNaN(got[c]) {
+							t.Failf("Gravity2(m1=%v,m2=%v,v=%v)=%v want %v", m[0], m[1], v, got, want)
+							return
+						}
+					}
+					n++
+				}
+			}
+		}
+		t.Count("bh_gravity_law_points", n)
+		t.Outcome("gravity-law")
+		t.Nontrivial()
+	})
 	for _, s := range sets {
 		for _, mk := range []string{"unit", "two", "mixed"} {
 			s, mk := s, mk
